@@ -6,3 +6,9 @@ import Peppi.Props.C12
 #print axioms Peppi.Props.C12.parseEvent_count
 #print axioms Peppi.Props.C12.handleEvent_ids
 #print axioms Peppi.Props.C12.readExactS_flat
+#print axioms Peppi.Props.C12.frag
+#print axioms Peppi.Props.C12.run_readProg
+#print axioms Peppi.Props.C12.readSlpS_frag
+#print axioms Peppi.Props.C12.parseEventS_frag
+#print axioms Peppi.Props.C12.parseHeaderS_frag
+#print axioms Peppi.Props.C12.parseStartS_frag
